@@ -65,6 +65,10 @@ def gen_queries(rng, names):
     return qs
 
 
+def _noop():
+    pass
+
+
 def impl_find(q, names, det):
     from taskchain.task import _find_task_full_name
     try:
@@ -153,6 +157,23 @@ def run(ctx):
                     ctx.fail('`in` disagrees with name resolution', case, {'in': q in cont, 'find': exp})
             if any(g != exp for g in got):
                 ctx.fail('Chain[...] / input_tasks[...] resolve differently from _find_task_full_name', case, {'got': got, 'find': exp})
+    run_dependants(ctx)
+
+
+def run_dependants(ctx):
+    """"... and from a dependant's inputs": real chains whose tasks declare inputs by short forms under colliding namespaces; the
+    resolution is compared with the Lean builder model and the executable reference (shared with C08)"""
+    from tcv import builder, pipeline as pl
+    from tcv.props import c08
+    from tcv.quiet import quiet
+    quiet()
+    root = ctx.tmpdir()
+    specs = [builder.gen_case(ctx.rng('dep', i)) for i in range(ctx.n(60, 600))]
+    reqs = [builder.encode(spec, pl.Built(root / f'd{i}', spec['module'], spec)) for i, spec in enumerate(specs)]
+    outs = ctx.model.many(reqs)
+    for i, (spec, mo) in enumerate(zip(specs, outs)):
+        c08.check_case(ctx, spec, root, f'd{i}', mo)
+        ctx.count('via_dependant_inputs')
 
 
 def search(ctx, divergences):
